@@ -1,3 +1,5 @@
+pub mod time;
+pub mod b64;
 pub mod batch;
 pub mod ctx;
 pub mod exec;
